@@ -215,8 +215,10 @@ pub fn gamma(j: &J) -> Result<Value, String> {
             for r in get(o, "rows")?.as_array().ok_or("rows")? {
                 rows.push(gamma_tags(r)?);
             }
+            let meta_some = o.get("meta_some").and_then(|b| b.as_bool()).unwrap_or(false);
+            let meta = gamma_opt_tags(get(o, "meta")?)?;
             Value::make_grid(Grid {
-                meta: gamma_opt_tags(get(o, "meta")?)?,
+                meta: if meta.is_none() && meta_some { Some(Dict::new()) } else { meta },
                 columns,
                 rows,
                 ver: text_of(get(o, "ver")?)?,
